@@ -496,7 +496,7 @@ def main():
             nroute = getattr(nmod, "ROUTE", None) or (lambda l, _b=nbin: _b)
             rxc = re.compile(rx)
             nrng = random.Random(seed * 1000003 + int(npid[1:]) + 7777 * int(pid[1:]))
-            for c in nmod.gen(nrng, gtier):
+            for c in nmod.gen(nrng, tier):
                 if rxc.match(c[0]) and c[0] not in neighbour_route:
                     b = nroute(c[0])
                     if b.startswith("widths") or b.endswith("w"):
@@ -563,7 +563,20 @@ def main():
                     if l and not l.startswith("#"):
                         cases.append((l, "corpus"))
         ctx["line_offset"] = len(cases)
-        cases += list(mod.gen(rng, gtier))
+        own = list(mod.gen(rng, tier))
+        if gtier != tier:
+            # escalated search (source drift / lost static tie / failing-input search): the thorough generator's requests
+            # on top of the quick ones, sampled down to a multiple of the quick volume so that the run time stays a small
+            # multiple of the quick run's (the list-based Lean model, not the crate, is the slow side)
+            have = set(c[0] for c in own)
+            rng2 = random.Random(seed * 31 + 7 + int(pid[1:]))
+            extra = [c for c in mod.gen(rng2, gtier) if c[0] not in have]
+            cap = int(float(os.environ.get("VERIF_ESCALATION_FACTOR", "3")) * max(len(own), 20000))
+            if len(extra) > cap:
+                keep = set(rng2.sample(range(len(extra)), cap))
+                extra = [c for i, c in enumerate(extra) if i in keep]
+            own += extra
+        cases += own
         cases += neighbour_cases
         # all-widths sweep of this property's width-sensitive operations (every N = 1..1024 of the u8-digit types)
         srng = random.Random(seed * 7919 + int(pid[1:]))
